@@ -259,6 +259,11 @@ class TypedNode(Node):
         ):
             raise TypeError("If child is a node or tree it must be typed.")
 
+        if before is False:
+            before = None  # append (note that `False` is also an `int`)
+        elif before is True:
+            before = 0  # prepend
+
         if isinstance(child, self._tree.__class__):
             if deep is None:
                 deep = True
@@ -268,6 +273,14 @@ class TypedNode(Node):
             for n in topnodes:
                 self.add_child(n, before=before, deep=deep)
             return
+
+        # Check `before` now, so a refused call does not leave a registered,
+        # but unlinked node behind
+        if isinstance(before, Node) and before._parent is not self:
+            raise ValueError(
+                f"`before=node` ({before._parent}) "
+                f"must be a child of target node ({self})"
+            )
 
         source_node = None
         factory = self._tree._node_factory
@@ -302,19 +315,11 @@ class TypedNode(Node):
 
         children = self._children
         if children is None:
-            assert before in (None, True, int, False)
             self._children = [node]
-        elif before is True:  # prepend
-            children.insert(0, node)
         elif isinstance(before, int):
             children.insert(before, node)
         elif before:
-            if before._parent is not self:
-                raise ValueError(
-                    f"`before=node` ({before._parent}) "
-                    f"must be a child of target node ({self})"
-                )
-            idx = _index_of(children, before)  # raises ValueError
+            idx = _index_of(children, before)
             children.insert(idx, node)
         else:
             children.append(node)
